@@ -213,6 +213,7 @@ def c09(ck):
         ("known", "interface a.b\nmethod M() -> ()\nerror Self (x: int)\n"),
         # layout: blanks, line ends and comments between a field name and its colon (column-aligned definitions)
         ("clean", "interface a.b\ntype Settings (name   : string,\n  limits : (low: int, high: int),\n  mode\n    : (fast, slow))\nmethod Foo(cfg : (a: int), list\t: [](b : ?(c: bool))) -> (entries\n    : [string](k: string))\n"),
+        ("clean", "interface Com.Example-2.MixedCase\ntype T (a: int)\nmethod Get(t: T) -> (t: T)\nerror Nope ()\n"),
         ("clean", "interface a.b\nmethod M(a # the first\n  : (x : int, y: []( z : string ))) -> (r :(q : (p: int)))\nerror E (why # reason\n : string)\n"),
         ("clean", "interface a.b\nmethod M(a: int) -> ()\nerror InterfaceNotFound (interface: string, hint: ?string)\nerror MethodNotImplemented (method: string)\nerror Result ()\nerror Call (x: int)\nerror Reply ()\nerror Kind ()\n"), ("known", "interface a.b\ntype Self (a: int)\nmethod M() -> ()\n"),
     ]
@@ -269,6 +270,12 @@ def c09(ck):
             continue
         ck.count("verdict=generated")
         code = unhx(a.split(" ")[1]).decode("utf-8")
+        # the name the generated proxy registers under is the interface name of the definition, exactly as written
+        gn = re.search(r"fn get_name \(& self\) -> & 'static str \{ \"([^\"]*)\" \}", code)
+        dn = re.search(r"(?m)^\s*interface\s+([A-Za-z0-9.-]+)", re.sub(r"(?m)#[^\n\r\u2028\u2029]*", "", t))
+        if kind != "mutant" and gn and dn and gn.group(1) != dn.group(1):
+            ck.failures.append({"what": "the generated interface proxy registers under a name that differs from the definition's interface name",
+                                "idl": t[:400], "get_name": gn.group(1), "interface": dn.group(1)})
         if kind == "mutant" and cid in pimpl and not pimpl[cid].startswith("ok"):
             ck.failures.append({"what": "code was emitted for a text the parser rejects", "text": t[:600]})
         if mj is None:
@@ -318,13 +325,20 @@ def c09(ck):
     # compile everything the model calls clean, in one crate
     ck.extra["programs"] = len(mods) + len(omods)
     if mods:
+        # the proc-macro front end, also with literals that begin / end with a comment (and so with '#' and '"' characters
+        # right at the raw string's delimiters)
+        edge = [("mace0", "# leading comment \"quoted\"\ninterface org.example.mace0\nmethod M(a: int) -> (b: string)\n"),
+                ("mace1", "interface org.example.mace1\nmethod M() -> ()\n# trailing comment #\n"),
+                ("mace2", "#\n##\ninterface org.example.mace2\ntype T (x: int)\nmethod M(t: T) -> ()\n#\n")]
         d = write_gencrate([("m%d" % i, code) for i, (cid, t, code) in enumerate(mods)] + [(nm, code) for nm, t, o, code in omods],
-                           macro_mods=[("mac%d" % i, mods[i][1]) for i in range(min(3, len(mods)))])
+                           macro_mods=[("mac%d" % i, mods[i][1]) for i in range(min(3, len(mods)))] + edge)
         rc, log = cargo(d, ["check", "--lib", "--quiet"])
         if rc != 0:
             bad_mods = failing_modules(log)
             if not bad_mods:
-                ck.failures.append({"what": "cargo check of the generated modules failed", "log": log[-1500:]})
+                pm = re.findall(r"error: proc macro panicked[\s\S]{0,500}?help: message: [^\n]*", log)[:2]
+                ck.failures.append({"what": "cargo check of the generated modules failed" + (" (the varlink! macro panicked on an accepted definition)" if pm else ""),
+                                    "proc_macro": pm, "log": log[-800:]})
             for bm in [b for b in bad_mods if b.startswith("o")][:5]:
                 nm, t, o, code = [x for x in omods if x[0] == bm][0]
                 errs = re.findall(r"(error[^\n]*)\n\s*--> src/%s\.rs" % bm, log)[:3]
@@ -437,6 +451,9 @@ def c08_corpora(rng, quick):
     # they are this interface's errors, to arrive as its own variants with all their parameters
     out.append(("c8n", Corpus("org.example.c8n", [("S", S)], [("string",), ("name", "S"), ("option", ("string",)), ("int",), ("array", ("string",))], [],
                               err_names=["InterfaceNotFound", "MethodNotImplemented", "NotFound", "Error", "Parameters"])))
+    # an interface name with upper-case letters and a hyphenated element (legal; registration, advertisement and dispatch all
+    # go by the name exactly as written)
+    out.append(("c8u", Corpus("org.Example-1.Up8", [("S", S)], [("string",), ("name", "S"), ("option", ("int",))], [])))
     if not quick:
         # random corpora
         pool = [("bool",), ("int",), ("float",), ("string",), ("object",), ("set",)]
